@@ -6,7 +6,7 @@ import os
 
 V = os.path.dirname(os.path.dirname(os.path.abspath(__file__)))
 rows = []
-for d in sorted(glob.glob(os.path.join(V, "seeded", "C*"))) + sorted(glob.glob(os.path.join(V, "seeded", "R3*"))) + sorted(glob.glob(os.path.join(V, "seeded", "R4*"))) + sorted(glob.glob(os.path.join(V, "seeded", "R5*"))) + sorted(glob.glob(os.path.join(V, "seeded", "R6*"))) + sorted(glob.glob(os.path.join(V, "seeded", "R7*"))) + sorted(glob.glob(os.path.join(V, "seeded", "R8*"))):
+for d in sorted(os.path.dirname(p) for p in glob.glob(os.path.join(V, "seeded", "*", "meta.json"))):
     m = json.load(open(os.path.join(d, "meta.json")))
     c = m.get("confirmed_by_lead", {})
     checks = c.get("checks", {})
